@@ -272,6 +272,31 @@ EXTRA4 = {
 for _pid, _t in EXTRA4.items():
     if _pid in CLAIMS and _t != "-":
         EXTRA[_pid] = (EXTRA[_pid][0] + "; fourth round: " + _t, EXTRA[_pid][1])
+EXTRA5 = {
+    "C01": "DRV-FORWARD (caller dictionaries reach their documented use; nothing of a call is merged into the solver), BC-DICT-PURE, ABS-ROUND, DTYPE-NARROW",
+    "C02": "FLUX-PURE (a flux neither changes its states nor returns stored arrays), class-level state incl. descriptors and keyword updates",
+    "C03": "class-level state shared through subclasses, NOZ-GEOM clause G (the geometric factor divides only by the centre section and the cell width), LIM-ZERO / LIM-DEFINED of the limiters, BC-DICT-PURE",
+    "C04": "DRV-RESET (run starts at the time of the field it is given), DRV-FORWARD, DRV-CALLER-PURE, FIELD-DEEPCOPY, ABS-ROUND as premises of 'the error of solve(...)[-1] at time T'",
+    "C05": "MEMO validity flags (a flag-guarded early return that keeps a value computed from an argument)",
+    "C06": "MEMO: class-level history updated in place, decorator caches (lru_cache / cached_property) reading mutable attributes",
+    "C07": "DRV-FORWARD (no criterion the caller did not ask for; dictionaries not exchanged), DRV-RESET time clause",
+    "C08": "MON-STORE (every record handed to a monitor is kept on every path), DRV-FORWARD, DRV-DT-MIN with unresolved operands of min/max",
+    "C10": "DRV-FORWARD (sticky dtlocal), MEMO stores through own-method calls (RHS re-used by time stamp), BC-DICT-PURE",
+    "C11": "DTYPE-FOLLOW of the face buffers, the discretisation's own interp_face stage, LIM-PURE / LIM-WRAP",
+    "C12": "LIM-PURE, LIM-WRAP, absolute rounding inside a limiter",
+    "C13": "ABS-ROUND in geometry / field / step functions",
+    "C14": "DTYPE-NARROW for 8-/16-bit integer conversions of index data, packing of every term of the implicit system",
+    "C15": "BC-PARAM-PURE, constructor-derived tables interpreted with the user dictionary in a non-mesh order",
+    "C16": "BC-PARAM-PURE, BC-DICT-PURE, spare keys of the user dictionary",
+    "C17": "VAR-ROUND (first-order rounding bound of each Euler variable against its definition's own conditioning, 12 decades), VAR-PURE returns-stored",
+    "C18": "FIELD-DEEPCOPY, DRV-FORWARD",
+    "C19": "SRC-ONCE along the body of a probing try statement, in-place state conversions (VAR-PURE)",
+    "C20": "np.full / zero-array averages, earlier versions of re-assigned face arrays",
+}
+for _pid, _t in EXTRA5.items():
+    if _pid in CLAIMS and _t != "-":
+        EXTRA[_pid] = (EXTRA[_pid][0] + "; fifth round: " + _t, EXTRA[_pid][1])
+EXTRA["C17"] = (EXTRA["C17"][0], EXTRA["C17"][1] + ", forward rounding-error abstract domain")
 EXTRA["C12"] = (EXTRA["C12"][0], EXTRA["C12"][1] + ", forward rounding-error abstract domain")
 for _pid in ("C07", "C06", "C08"):
     EXTRA[_pid] = (EXTRA[_pid][0], EXTRA[_pid][1] + ", evaluation of control code over finite (ordering / boolean) abstractions")
